@@ -10,6 +10,7 @@ import RsModel.Lemmas.ColdStrip
 import RsModel.Lemmas.WarmTree
 import RsModel.Lemmas.WarmMap
 import RsModel.Lemmas.HistoryAnswers
+import RsModel.Lemmas.WarmLinesF
 /-!
 # C10 — CachedSource is transparent for every call history
 -/
@@ -380,5 +381,39 @@ example : (Src.concat (.cons (.cached 0 (.orig [97, 59, 98] [102])) (.cons (.raw
     ∧ (runCalls (Src.concat (.cons (.cached 0 (.orig [97, 59, 98] [102])) (.cons (.rawStr [120]) .nil)))
         [⟨true, false⟩, ⟨true, true⟩, ⟨false, false⟩, ⟨true, false⟩, ⟨true, true⟩] []).1.length = 5 := by
   refine ⟨by simp [Src.NoCR, SrcList.NoCRs], by decide⟩
+
+/-! ## every call history, columns = false -/
+
+/-- **… streams with columns = false** (file and line granularity, as the property demands): for every normal-mode stream with
+columns = false of every history and every generated line `L`, the first mapped chunk on `L` resolves — through the stream's own
+announcements (`LNameOf`) — to the same file name and original line as the first mapped chunk on `L` of the cache-free tree's
+stream.  A CachedSource replays its text line by line through the stored lines-only map, so bytes are *not* attributed alike
+(a whole line goes to its first mapped segment); what is preserved is exactly the line's first mapped chunk (`replayL_leaf`), and
+that statement passes through ConcatSource nodes (`Lemmas/LineFirst.lean`: the first mapped byte of a line, `fsl_find`,
+`fsl_append`; `Lemmas/WarmLines.lean`). -/
+theorem c10_every_history_stream_lines (s : Src) (hk : s.NoCR) (hn : s.ids.Nodup) (σ : Store) (hc : Cold σ s.ids) (hw : s.WF)
+    (hp : s.PosHyp false) (h : s.WarmHypL) (calls : List Opts) (k : Nat) (hcall : calls[k]? = some ⟨false, false⟩) :
+    ∃ r, (runCalls s calls σ).1[k]? = some r ∧ ∀ L, LNameOf r.evs L = LNameOf (s.strip.stream ⟨false, false⟩ []).1.evs L :=
+  history_stream_lname s hk hn σ hc hw hp h calls k hcall
+
+/-- **… and maps with columns = false**: the map every `get_map(columns = false)` of every history returns resolves every generated
+line `L ≥ 1` — first mapped segment of the line, through the map's own `sources` (`LNameM`) — to the same file name and original line
+as the first mapped chunk on `L` of the cache-free tree's stream.  (`Lemmas/WarmLinesF.lean`: the replay tree of text-less fills
+is again in the domain of C03 for columns = false.) -/
+theorem c10_every_history_map_lines (s : Src) (hk : s.NoCR) (hn : s.ids.Nodup) (σ : Store) (hc : Cold σ s.ids) (h : s.ModeHypL) (hs : s.SmallFL)
+    (hsmall1 : ∀ m ∈ chunkMs (s.strip.stream ⟨false, true⟩ []).1.evs, ∀ o, m.orig = some o → o.src < U31 ∧ o.line < U31)
+    (hsmall2 : ∀ m ∈ chunkMs ((s.warm ⟨false, true⟩).stream ⟨false, true⟩ []).1.evs, ∀ o, m.orig = some o → o.src < U31 ∧ o.line < U31)
+    (calls : List Opts) (k : Nat) (hcall : calls[k]? = some ⟨false, true⟩) :
+    ∃ r, (runCalls s calls σ).1[k]? = some r ∧ ∀ sm, mapOfEvs false r.evs = some sm → ∀ L, 0 < L →
+      LNameM sm L = LNameOf (s.strip.stream ⟨false, false⟩ []).1.evs L :=
+  history_map_lname s hk hn σ hc h hs hsmall1 hsmall2 calls k hcall
+
+/-- non-vacuity: on `ConcatSource[CachedSource(OriginalSource("a;b\nc", "f")), RawSource("x")]` the first stream with columns = false
+resolves line 1 to file "f", original line 1, and line 2 to file "f", original line 2 -/
+example : LNameOf ((Src.concat (.cons (.cached 0 (.orig [97, 59, 98, 10, 99] [102])) (.cons (.rawStr [120]) .nil))).stream ⟨false, false⟩ []).1.evs 1
+      = some (some [102], 1)
+    ∧ LNameOf ((Src.concat (.cons (.cached 0 (.orig [97, 59, 98, 10, 99] [102])) (.cons (.rawStr [120]) .nil))).stream ⟨false, false⟩ []).1.evs 2
+      = some (some [102], 2) := by
+  constructor <;> decide
 
 end Rs
